@@ -23,7 +23,7 @@ ASSUMPTIONS = [
     "file sizes before and after each change are solver variables; A-hash model; progress bars stubbed",
 ]
 WITNESSES = ["file added", "file deleted", "file grown", "file shrunk", "file rewritten", "piece length changed between runs"]
-MUT = ["none", "add", "delete", "grow", "shrink", "rewrite"]
+MUT = ["none", "add", "delete", "grow", "shrink", "rewrite", "rewrite-keep-times"]
 
 
 def BOUNDS(tier):
@@ -94,6 +94,12 @@ def mutate(E, fs, sizes, mut, P, tag=""):
         E.witnesses["file grown" if mut == "grow" else "file shrunk"] = True
     elif mut == "rewrite":
         fs.add("/data/name/a", ("f", "a-rewritten" + tag), sizes["name/a"])
+        E.witnesses["file rewritten"] = True
+    elif mut == "rewrite-keep-times":
+        # other bytes, same length, timestamps as before (cp -p, rsync -t, touch -r)
+        stamps = (dict(fs.mtime), fs.clock)
+        fs.add("/data/name/a", ("f", "a-rewritten" + tag), sizes["name/a"])
+        fs.mtime, fs.clock = dict(stamps[0]), stamps[1]
         E.witnesses["file rewritten"] = True
     return sizes
 
@@ -763,6 +769,12 @@ def replay(params, model, notes, workdir, seed):
             refconc.write_file(os.path.join(root, "a"), refconc.content(("f", 0), int(model.get("sa2" + tag, 0)), seed))
         elif mut == "rewrite":
             refconc.write_file(os.path.join(root, "a"), refconc.content(("f", "a-rewritten" + tag), sa, seed))
+        elif mut == "rewrite-keep-times":
+            st, dst = os.stat(os.path.join(root, "a")), os.stat(root)
+            with open(os.path.join(root, "a"), "wb") as f_:
+                f_.write(refconc.content(("f", "a-rewritten" + tag), sa, seed))
+            os.utime(os.path.join(root, "a"), ns=(st.st_atime_ns, st.st_mtime_ns))
+            os.utime(root, ns=(dst.st_atime_ns, dst.st_mtime_ns))
 
     fresh_code = (
         "import sys, json, io, contextlib; sys.path.insert(0, %r)\n"
